@@ -232,6 +232,7 @@ func streamStoreReadonly(t *testing.T, o *Out) {
 	}
 	wW := stWeights{"C": 8, "P": 14, "T": 10, "W": 8, "Y": 5, "D": 1, "X": 1}
 	wR := stWeights{"L": 10, "LA": 8, "PL": 8, "E": 8, "iter": 3}
+	var probeEnv *stEnv
 	for i := 0; i < n; i++ {
 		c := newStCase(e, r)
 		g := newStGen(c, []int{0})
@@ -258,6 +259,16 @@ func streamStoreReadonly(t *testing.T, o *Out) {
 		if acc := e.writeAttempts("wprobe-"+strconv.Itoa(i), "wprobe-sub"); acc != "" {
 			c.cols = append(c.cols, "x_write_accepted="+acc)
 			o.Count("write-accepted-by-read-api")
+		}
+		if i%4 == 0 {
+			if probeEnv == nil {
+				probeEnv = newStEnv(t, o, 0)
+			}
+			if msg := probeEnv.lostMappingProbe("lostmap-" + strconv.Itoa(i)); msg != "" {
+				c.cols = append(c.cols, "x_read_wrote="+msg)
+				o.Count("read-api-wrote")
+			}
+			o.Count("lost-mapping-probe")
 		}
 		c.emit(fmt.Sprintf("r%d", i), c.okWrites >= 1 && rms >= 1)
 	}
